@@ -766,8 +766,10 @@ def roi_from_points(
 
     ny, nx = shape
 
-    _in = np.floor(xy.min(axis=0)).astype("int32") - padding
-    _out = np.ceil(xy.max(axis=0)).astype("int32") + padding
+    # clamp before integer conversion: points far outside of the image must not overflow int32
+    _lim = float(1 << 30)
+    _in = np.clip(np.floor(xy.min(axis=0)), -_lim, _lim).astype("int32") - padding
+    _out = np.clip(np.ceil(xy.max(axis=0)), -_lim, _lim).astype("int32") + padding
 
     if align is not None:
         _in = align_down(_in, align)
